@@ -36,6 +36,7 @@ class AORun(object):
     self.events = {}
     self.live_spy = {}
     self.live_trace = {}
+    self.token_queue_full_seen = False   # reach: the bounded wake-up token queue was full at a context switch
 
   # ------------------------------------------------------------ chart of an object
   def make_handlers(self, oi, od):
@@ -112,7 +113,7 @@ class AORun(object):
       elif op == 'publish':
         self.do_publish(oi, chart, f['sig'], f.get('prio'), 'handler')
       elif op == 'subscribe':
-        self.do_subscribe(oi, chart, f['sig'], f.get('kind'), 'handler')
+        self.do_subscribe(oi, chart, f['sig'], f.get('kind'), 'handler', f.get('form'))
       elif op == 'sleep':
         # a slow handler: the chart falls behind (no lock is held here)
         self.sim.fault('slow_handler')
@@ -166,16 +167,18 @@ class AORun(object):
     self.pubs[uid]['end'] = self.sim.seq
     return uid
 
-  def do_subscribe(self, oi, obj, sig, kind, by):
+  def do_subscribe(self, oi, obj, sig, kind, by, form=None):
     ev = seams.mods['event']
     b = self.sim.record('ao', 'op', 'begin', (by, 'subscribe'))
     rec = {'obj': oi, 'sig': sig, 'kind': kind or 'fifo', 'begin': b, 'end': None, 'where': by,
-           'before_start': oi not in self.started}
+           'before_start': oi not in self.started, 'form': form or 'event'}
     self.subs.append(rec)
+    # the signal is given as an event, or as its number
+    arg = getattr(ev.signals, sig) if form == 'int' else ev.Event(signal=sig)
     if kind is None:
-      obj.subscribe(ev.Event(signal=sig))
+      obj.subscribe(arg)
     else:
-      obj.subscribe(ev.Event(signal=sig), queue_type=kind)
+      obj.subscribe(arg, queue_type=kind)
     rec['end'] = self.sim.seq
 
   def _running(self, oi):
@@ -314,8 +317,8 @@ class AORun(object):
           _, oi, sig, prio = op
           self.do_publish(oi, self.objs[oi], sig, prio, k)
         elif kind == 'subscribe':
-          _, oi, sig, sk = op
-          self.do_subscribe(oi, self.objs[oi], sig, sk, k)
+          oi, sig, sk = op[1:4]
+          self.do_subscribe(oi, self.objs[oi], sig, sk, k, op[4] if len(op) > 4 else None)
         elif kind == 'stop':
           oi = op[1]
           rec = {'obj': oi, 'begin': b, 'end': None, 'from': k}
@@ -425,6 +428,8 @@ def run_ao(sc, sched, max_steps=200000, horizon_s=None, before_run=None):
     for o in run.objs:
       ld = o.locking_deque
       out.append((min(ld.deque.real_len(), 8), min(ld.locking_queue._qsize(), 8)))
+      if ld.locking_queue.maxsize and ld.locking_queue._qsize() >= ld.locking_queue.maxsize:
+        run.token_queue_full_seen = True
     timers = sum(1 for t in sim.threads if t.role == 'timer' and t.state != kernel.DONE)
     f = run.fabric
     fab = (sum(1 for t in sim.threads if t.role.startswith('fabric') and t.state != kernel.DONE),
